@@ -268,7 +268,10 @@ def check(run):
         f.write("#!/bin/sh\nZVT_HARNESS_LOG=1 exec %s \"$@\"\n" % dbg)
     os.chmod(logged, os.stat(logged).st_mode | stat.S_IEXEC)
     for label, prog in (("debug", dbg), ("release", rel), ("debug+log", logged)):
-        flat, mo, io = run_pair(run, drv, prog, cases, "c02" + label.replace("+", "_"))
+        # the library's log lines print the whole rest of the input at every tag: formatting them is quadratic, so the logged pass
+        # leaves out the few inputs above 4 KiB (they are decoded in the other two passes) — a log line cannot tell them apart
+        these = cases if label != "debug+log" else [c for c in cases if len(c.rsplit("\t", 1)[-1]) <= 8192]
+        flat, mo, io = run_pair(run, drv, prog, these, "c02" + label.replace("+", "_"))
         if mo is None:
             continue
         all_diffs += analyse(run, flat, mo, io, label)
